@@ -47,7 +47,7 @@ CLAIMED = {
         note=NOTE + "as C08",
         design="5 (C09)"),
     'C10': dict(
-        text="C10_output (frame = plain ++ le(crc(plain))), C10_roundtrip, C10_accept_sound (whatever CRC-checked decoding accepts: consumed bytes followed by their correct checksum, value and length those of plain decoding; by simulation of the CRC modifier with a consumption-tracking slice), C10_checksum_pinned, C10_crc_bound. The burst-error theorem is not proved (partial); the harness applies every single-bit flip and bursts <= width in the algorithm's bit order to every sampled frame and recomputes checksums with an independent bitwise CRC for 10 catalogue algorithms.",
+        text="C10_output (frame = plain ++ le(crc(plain))), C10_roundtrip, C10_accept_sound (whatever CRC-checked decoding accepts: consumed bytes followed by their correct checksum, value and length those of plain decoding; by simulation of the CRC modifier with a consumption-tracking slice), C10_checksum_pinned, C10_crc_bound; C10_burst_detected (any two messages whose register bit streams differ only inside a window of at most `width` bits have different checksums, for every width/polynomial with non-zero constant term/init/reflection/xorout: linearity of the shift register + injectivity of the zero-input step), C10_single_bit_detected, C10_burst_rejected and C10_bit_flip_rejected (the frame-level consequence: same trailing bytes, corrupted payload, not accepted); the algorithm hypotheses are the executable alg_okb, evaluated by the correspondence on the 10 catalogue algorithms the driver uses. The harness additionally applies every single-bit flip and bursts <= width in the algorithm's bit order to every sampled frame and recomputes checksums with an independent bitwise CRC.",
         note=NOTE + "crate crc (table-driven Digest) as the bitwise Rocksoft model, compared on every frame",
         design="5 (C10)"),
     'C11': dict(
